@@ -273,9 +273,14 @@ def replay(hosts: dict, beh: dict, check: set[str]) -> tuple[list, int]:
 
     def add(kind: str, ev: dict, msg: str) -> None:
         if doc == 'compact' and kind in ('reparse', 'readback') and ev['op'] in ('clear', 'vclear') and 're-parse' in msg:
-            # removing a child glued to its right neighbour also removes the only separator on its left
-            findings.append(('slots/compact-source/neighbours-merged-after-removal', kind, msg))
-            return
+            # the recorded defect, and only it: removing a child glued to its right neighbour also removes the only
+            # separator on its left, so the two neighbours - both still there, untouched - merge on re-parse.
+            # Anything else (a sibling's token gone too, text changed elsewhere) keeps its own fingerprint.
+            gone = [t for t in before_toks if id(t) not in {id(x) for x in now_toks} and id(t) not in cur_tokens
+                    and t.raw_text and not isinstance(t, SEP_TYPES)]
+            if not gone:
+                findings.append(('slots/compact-source/neighbours-merged-after-removal', kind, msg))
+                return
         findings.append((f'slots/{cname}.{ev["name"]}/{ev["op"]}/{kind}', kind, msg))
 
     for ev in beh['steps'][1:]:
@@ -420,16 +425,13 @@ def replay(hosts: dict, beh: dict, check: set[str]) -> tuple[list, int]:
                 if k != s['val'] and vals0.get(k) != v:
                     add('readback', ev, f'other property {k} changed from {vals0.get(k)!r} to {v!r}')
         if {'reparse', 'readback'} & check:
+            tainted = False
             try:
                 f2 = tree.parse(text)
                 differs = tree.content(f2) != tree.content(f)
+                tainted = differs and doc == 'compact' and op in ('clear', 'vclear')
                 if 'reparse' in check and differs:
                     add('reparse', ev, f'content differs after re-parse of {text!r}')
-                elif differs and doc == 'compact' and op in ('clear', 'vclear'):
-                    # the known compact-source defect (a removal merged two neighbours) struck on a step this property
-                    # does not judge: the rest of this history runs on a document that no longer says what the tree
-                    # says, so it is not continued (it is judged, and reported, where the removal itself is in scope)
-                    break
                 if 'readback' in check and op in ('vset', 'vsetedge', 'vsetsame', 'vclear'):
                     m2 = at_path(f2, path)
                     # which model a comment is attributed to may differ after re-parse (attribution aside)
@@ -441,6 +443,11 @@ def replay(hosts: dict, beh: dict, check: set[str]) -> tuple[list, int]:
             except Exception as e:  # noqa: BLE001
                 if 'reparse' in check:
                     add('reparse', ev, f'printed text does not parse ({type(e).__name__}): {text!r}')
+            if tainted and not findings:
+                # the known compact-source defect (a removal merged two neighbours) struck on a step this property
+                # does not judge: the rest of this history runs on a document that no longer says what the tree
+                # says, so it is not continued (it is judged, and reported, where the removal itself is in scope)
+                break
         if 'tree' in check:
             bad = tree.wellformed(f)
             if bad:
@@ -465,7 +472,14 @@ def _chunk(arg: tuple) -> tuple[int, list]:
         try:
             fnd, st = replay(_HOSTS, beh, set(check))
         except Exception as e:  # noqa: BLE001
-            out.append(('machinery', 'machinery', f'{type(e).__name__}: {e} in {beh["cls"]}', beh))
+            where = common.raised_in_repo(e)
+            if where:
+                last = beh['steps'][-1]
+                out.append((f'slots/{beh["cls"]}/unobservable', 'unobservable',
+                            f'after {[(x.get("op"), x.get("name")) for x in beh["steps"][1:]]} the document cannot be read any more: '
+                            f'{type(e).__name__}: {e} (raised in {where})', beh))
+            else:
+                out.append(('machinery', 'machinery', f'{type(e).__name__}: {e} in {beh["cls"]}', beh))
             continue
         steps += st
         for fp, kind, msg in fnd:
@@ -502,7 +516,7 @@ def run(rep: common.Reporter, tier: str, check: set[str], plans: Optional[list] 
             for fp, kind, msg, beh in out:
                 if kind == 'machinery':
                     rep.machinery_error(msg)
-                elif kind in check:
+                elif kind in check or kind == 'unobservable':
                     rep.violation(fp, {'kind': kind, 'what': msg, 'behaviour': beh})
     return {'states': states, 'transitions': transitions, 'behaviours': len(behs), 'steps': steps,
             'classes': len(hosts), 'slots': sum(len(h['slots']) for h in hosts.values()),
